@@ -815,6 +815,9 @@ def _canon(e):
             return ConstT(("const", e[1][1], e[1][2]))          # (CHUNK_LEN as u64) is the constant 1024
     if k == "bin" and e[1] in ("Shr", "Shl") and isinstance(e[3], tuple) and e[3][0] == "const" and isinstance(e[3][2], int) and 0 <= e[3][2] < 64:
         return ("bin", "Div" if e[1] == "Shr" else "Mul", e[2], ConstT(("const", None, 1 << e[3][2])))
+    if k == "bin" and e[1] == "Div" and isinstance(e[2], tuple) and e[2] and e[2][0] == "bin" and e[2][1] == "Mul" and isinstance(e[3], tuple) and e[3] \
+            and e[3][0] == "const" and isinstance(e[3][2], int) and e[3][2] != 0 and e[2][3] == e[3]:
+        return e[2][2]                                           # (x * c) / c is x (lengths: no overflow on this path, checked arithmetic)
     if k == "bin" and e[1] == "Gt" and isinstance(e[3], tuple) and e[3][0] == "const" and e[3][2] == 0:
         return ("bin", "Ne", e[2], e[3])                           # lengths and counters are unsigned: x > 0 is x != 0
     if k == "call" and len(e[2]) == 1 and isinstance(e[1], str):
@@ -1063,10 +1066,20 @@ def guards_imply_zero(gs, x, zero=True):
     return False
 
 
-def local_defs_with_guards(fn, l):
+def local_defs_with_guards(fn, l, _seen=None):
     """for a multi-def local: [(block, guards, value-expr)] per whole definition"""
     out = []
-    for d in fn.defs().get(l, []):
+    ds = fn.defs().get(l, [])
+    if len(ds) == 1 and ds[0][0] == "assign" and not ds[0][3]["place"]["p"] and _seen is None or (_seen is not None and len(ds) == 1 and ds[0][0] == "assign" and not ds[0][3]["place"]["p"]):
+        rv = ds[0][3]["rv"]
+        if rv.get("k") == "use" and rv["op"].get("k") in ("move", "copy") and not rv["op"]["place"]["p"]:
+            src = rv["op"]["place"]["l"]
+            seen = set(_seen or ()) | {l}
+            if src not in seen and src > fn.argc and len(fn.defs().get(src, [])) > 1:
+                # a single `l = move src` where src has several definitions (e.g. the result of an inlined helper that
+                # branches): the alternatives are src's
+                return local_defs_with_guards(fn, src, seen)
+    for d in ds:
         if d[0] == "call":
             out.append((d[1], guards_at(fn, d[1]), val(fn.expr_call(d[2]))))
         elif d[0] == "assign" and not d[3]["place"]["p"]:
